@@ -75,7 +75,31 @@ CHECKS['C03'] = {
     'technique': 'bounded exhaustive exploration (configuration space + dispatch histories), differential oracle',
 }
 
+CHECKS['C05'] = {
+    'text': 'Every linear operator instance of the registry that returns an adjoint (option sets over '
+            'weightings, complex dtypes, axes, shapes, padding modes, field-valued domains/ranges; closed '
+            'under .adjoint to depth 2), every linear expression tree (BFS depth 2, depth 3 thorough; sum, '
+            'composition, real and complex scalar and vector multiples, .adjoint) and block operators '
+            'over all leaf pairs: <A x, y> = <x, A* y> is decided for ALL x, y on every pair of the real '
+            'bases of domain and range in the spaces own inner products; adjoint maps range to domain; '
+            'adjoint.adjoint acts like A; linear flag implies A(0) = 0.',
+    'note': 'spaces of dimension <= 48; tolerance 1e-11 relative; operators documented as approximate '
+            '(Resampling, RayTransform, LinDeform*) executed but not judged; inner products validated by C02',
+    'technique': 'bounded exhaustive exploration (configuration x program space); sesquilinearity decides all inputs on the basis',
+}
+CHECKS['C13'] = {
+    'text': 'finite_diff, PartialDerivative, Gradient, Divergence, Laplacian over 3 methods x 10 padding '
+            'modes x pad constants x every small shape (1-d 2..9, 2-d, 3-d) x axis x dtype x cell sides x '
+            'layout/constructor variants: the full matrix and offset of every configuration (all inputs by '
+            'affinity) equals the textbook stencil on the array extended by the named rule; adjoint matrix '
+            '== transpose; Divergence == -Gradient^T; derivative of the affine variant is the zero-padded '
+            'operator; in-place == out-of-place; is_linear iff offset zero.',
+    'note': 'exact comparison for dyadic cell sides, 4 eps otherwise; reference assembled in long double; '
+            'the docstring sentence about symmetric not doubling the edge contradicts code/tests/NumPy and is not judged',
+    'technique': 'bounded exhaustive configuration-space exploration; linearity decides all inputs via the full matrix',
+}
+
 _PENDING = 'check under construction in this session; not claimed until it runs quietly on the unchanged tree'
 NOT_APPLICABLE = dict((p, _PENDING) for p in
-                      ['C01', 'C02', 'C04', 'C05', 'C06', 'C11', 'C12',
-                       'C13', 'C14', 'C15', 'C16', 'C17', 'C18', 'C19', 'C20'])
+                      ['C01', 'C02', 'C04', 'C06', 'C11', 'C12',
+                       'C14', 'C15', 'C16', 'C17', 'C18', 'C19', 'C20'])
